@@ -1,10 +1,10 @@
 SPECIFICATION Spec
 CONSTANTS
-  NLoops = 2
+  NLoops = 1
   Fds = {1, 2}
   Halves = {1, 2}
-  MaxOps = 5
-  Deviations = {"resume_without_fd_check"}
+  MaxOps = 6
+  Deviations = {"record_token_kept"}
 VIEW view
 INVARIANTS InterestExact NoViolation TokenOfWaiter
 CHECK_DEADLOCK FALSE
